@@ -13,6 +13,7 @@ import (
 	"math/rand"
 	"os"
 	"path/filepath"
+	"runtime"
 	"runtime/debug"
 	"runtime/metrics"
 	"strings"
@@ -619,7 +620,22 @@ func tagEquivalent(w, g *modelv1.TagValue) bool {
 	return false
 }
 
+// held is the previous decoded column: it was produced with its own decoder and must stay intact while
+// later columns are decoded (readers hold several decoded columns of a block at once).
+var held struct {
+	want, got [][]byte
+	kind      string
+}
+
 func tagRoundTrip(s *verifh.Sink, vals [][]byte, vt pbv1.ValueType, kind string) {
+	defer func() {
+		if held.want != nil && vt == pbv1.ValueTypeStr {
+			if idx, ok := sameBytesList(held.want, held.got); !ok {
+				s.Violation("roundtrip:EncodeTagValues:decoded-column-changed-by-later-decode", map[string]any{"held_kind": held.kind, "later_kind": kind, "index": idx, "want": hexList(held.want, idx), "now": hexList(held.got, idx)})
+				held.want = nil
+			}
+		}
+	}()
 	bb := &pkgbytes.Buffer{}
 	mt, err := tagenc.EncodeTagValues(bb, vals, vt)
 	if err != nil {
@@ -631,6 +647,12 @@ func tagRoundTrip(s *verifh.Sink, vals [][]byte, vt pbv1.ValueType, kind string)
 	got, derr := tagenc.DecodeTagValues(nil, &dec, &pkgbytes.Buffer{Buf: append([]byte(nil), enc...)}, vt, len(vals))
 	s.Case(fmt.Sprintf("tagcol/%d/%s/%x", vt, kind, enc), len(vals) >= 2 && mt != encoding.EncodeTypeConst)
 	s.Count(fmt.Sprintf("rt.tagcolumn.type%d.mode%d", vt, mt), 1)
+	if vt == pbv1.ValueTypeStr && len(vals) <= 300 && derr == nil { // dictionary/plain columns: the ones whose values alias decoder memory
+		if _, ok := sameBytesList(vals, got); ok {
+			held.want, held.got, held.kind = vals, got, kind
+			s.Count("rt.tagcolumn.held_and_rechecked", 1)
+		}
+	}
 	if idx, ok := sameBytesList(vals, got); derr != nil || !ok {
 		cls := kind
 		if vt == pbv1.ValueTypeFloat64 && idx >= 0 && idx < len(vals) && len(vals[idx]) == 8 {
@@ -691,7 +713,7 @@ func clip[T any](a []T) []T {
 // ---- hostile bytes --------------------------------------------------------------------------------------
 
 type hostileState struct {
-	curStart atomic.Int64 // process CPU ns when the current call started (0 = idle)
+	curStart atomic.Int64 // monotonic ns when the current call started (0 = idle)
 	curAlloc atomic.Uint64
 	curName  atomic.Value
 }
@@ -703,9 +725,11 @@ func allocBytes() uint64 {
 	return s[0].Value.Uint64()
 }
 
+// cpuNanos is the CPU time of the calling OS thread (the harness goroutine is locked to its thread), so
+// garbage collection and other goroutines running in parallel are not billed to the decoder under test.
 func cpuNanos() int64 {
 	var ru syscall.Rusage
-	syscall.Getrusage(syscall.RUSAGE_SELF, &ru)
+	syscall.Getrusage(1 /* RUSAGE_THREAD */, &ru)
 	return ru.Utime.Nano() + ru.Stime.Nano()
 }
 
@@ -773,7 +797,11 @@ func mutate(r *rand.Rand, seeds []seedEnc) (seedEnc, string) {
 	return s, names[kind]
 }
 
+var epoch = time.Now()
+
 func hostile(s *verifh.Sink, t *testing.T) {
+	runtime.LockOSThread()
+	defer runtime.UnlockOSThread()
 	scratch := verifh.Scratch()
 	cur, err := os.OpenFile(filepath.Join(scratch, "current-input.bin"), os.O_CREATE|os.O_RDWR, 0o644)
 	if err != nil {
@@ -796,18 +824,18 @@ func hostile(s *verifh.Sink, t *testing.T) {
 				continue
 			}
 			alloc := allocBytes() - st.curAlloc.Load()
-			cpu := cpuNanos() - start
+			cpu := time.Since(epoch).Nanoseconds() - start // wall time of one call: only a real hang reaches the limit
 			if st.curStart.Load() != start {
 				continue // the call returned meanwhile
 			}
-			if alloc > 4<<30 || cpu > int64(30*time.Second) {
+			if alloc > 4<<30 || cpu > int64(300*time.Second) {
 				name, _ := st.curName.Load().(string)
 				in, _ := os.ReadFile(filepath.Join(scratch, "current-input.bin"))
 				why := "unbounded-allocation"
 				if alloc <= 4<<30 {
 					why = "cpu-hang"
 				}
-				s.Violation("hostile:"+name+":"+why, map[string]any{"allocated_in_call": alloc, "cpu_ns": cpu, "input": hex.EncodeToString(in[:min(len(in), 4096)]), "input_len": len(in)})
+				s.Violation("hostile:"+name+":"+why, map[string]any{"allocated_in_call": alloc, "wall_ns": cpu, "input": hex.EncodeToString(in[:min(len(in), 4096)]), "input_len": len(in)})
 				s.Done()
 				os.Exit(0)
 			}
@@ -823,7 +851,7 @@ func hostile(s *verifh.Sink, t *testing.T) {
 		a0 := allocBytes()
 		st.curAlloc.Store(a0)
 		c0 := cpuNanos()
-		st.curStart.Store(c0 | 1)
+		st.curStart.Store(time.Since(epoch).Nanoseconds() | 1)
 		var perr any
 		var stack string
 		var rerr error
@@ -852,11 +880,11 @@ func hostile(s *verifh.Sink, t *testing.T) {
 				"input": hex.EncodeToString(in.b[:min(len(in.b), 2048)]), "input_len": len(in.b), "stack": clipStr(stack, 1800)})
 		}
 		if c1-c0 > int64(10*time.Second) {
-			s.Violation("hostile:"+name+":cpu", map[string]any{"cpu_ns": c1 - c0, "input": hex.EncodeToString(in.b[:min(len(in.b), 2048)])})
+			s.Violation(zstdKey(name, "cpu", in.b), map[string]any{"cpu_ns": c1 - c0, "input": hex.EncodeToString(in.b[:min(len(in.b), 2048)])})
 		}
 		bound := uint64(64<<20) + 64*uint64(len(in.b)+in.count)
 		if d := allocBytes() - a0; d > bound {
-			s.Violation("hostile:"+name+":alloc"+zstdDeclared(in.b, bound), map[string]any{"allocated": d, "bound": bound, "count": in.count, "input": hex.EncodeToString(in.b[:min(len(in.b), 2048)])})
+			s.Violation(zstdKey(name, "alloc", in.b), map[string]any{"allocated": d, "bound": bound, "count": in.count, "input": hex.EncodeToString(in.b[:min(len(in.b), 2048)])})
 		}
 	}
 
@@ -998,6 +1026,15 @@ func zstdDeclared(in []byte, bound uint64) string {
 		}
 		off += p + 4
 	}
+}
+
+// zstdKey names an alloc/cpu violation; when the input carries a zstd frame declaring an oversized decoded
+// length the violation is attributed to that (known) library pre-allocation instead of the decoder itself.
+func zstdKey(name, what string, in []byte) string {
+	if zstdDeclared(in, uint64(64<<20)+64*uint64(len(in)+8193)) != "" {
+		return "hostile:zstd-declared-size:" + name + ":" + what
+	}
+	return "hostile:" + name + ":" + what
 }
 
 func clipStr(s string, n int) string {
